@@ -24,7 +24,7 @@ from mc.ref import typing as rt
 PROPERTY = "C14"
 MAXTASKS = 50
 RULE = (
-    "every sequence of <=2 operations (<=3 in thorough) from an alphabet of 43 concrete operations, every "
+    "every sequence of <=2 operations (<=3 in thorough) from an alphabet of 45 concrete operations, every "
     "sequence of 3 (4 in thorough) over a reduced 14-operation alphabet; "
     "operations range over 5 environments (module default, two instances, a subclass with "
     "max_recursion_depth=2, a subclass registering its own function), 8 queries and 4 documents, each "
@@ -89,7 +89,8 @@ def ops_alphabet(tier_small=False):
     # the registry of ONE environment changes between two compilations of the same text: the second
     # compilation must follow the registry as it is now
     ops += [("recompile_after_unregister", "E1"), ("recompile_after_unregister", "D"),
-            ("recompile_after_resignature", "E2")]
+            ("recompile_after_resignature", "E2"), ("recompile_after_range_change", "E1"),
+            ("refind_after_range_change", "E2")]
     if tier_small:
         keep = {("compile", "E1", "qA"), ("compile", "E1", "qF"), ("compile", "E2", "qF"), ("apply", 0, "d1"),
                 ("apply", 0, "d3"), ("apply", 1, "d2"), ("find", "E2", "qF", "d1"), ("mfind", "qF", "d1"),
@@ -321,6 +322,20 @@ def run_history(hist):
             w.mutate(d)
             exp = m.expect(e, q, d, w.docs)
             obs = observe(lambda: w.env(e).find(Q[q], w.docs[d]))
+        elif kind in ("recompile_after_range_change", "refind_after_range_change"):
+            # the integer range of ONE environment instance is narrowed between two uses of the same text
+            _, e = op
+            env = w.env(e)
+            use = (lambda: env.compile(Q["qSl"]).find(w.docs["d1"])) if kind.startswith("recompile") \
+                else (lambda: env.find(Q["qSl"], w.docs["d1"]))
+            exp1 = m.expect(e, "qSl", "d1", w.docs)
+            obs1 = observe(use)
+            if tuple(exp1) != tuple(obs1[:2]):
+                return (i, op, exp1, obs1[:2])
+            env.min_int_index = -1  # `$.s[-2:]` is out of range now
+            exp = ("err", "JSONPathError")
+            obs = observe(use)
+            del env.min_int_index  # back to the class default for the rest of the history
         elif kind in ("recompile_after_unregister", "recompile_after_resignature"):
             _, e = op
             env = w.env(e)
